@@ -190,6 +190,19 @@ func (p *Program) RunHarness(name string) *HarnessResult {
 				}
 				w.runPath(fn, decs)
 				ex.done()
+				if w.solver.Hung() {
+					// replace the killed solver process
+					old := w.solver
+					old.Close()
+					ns, err := NewSolver(p.opts.Solver, p.opts.TimeoutMs, nil)
+					if err != nil {
+						res.engineErr("cannot restart solver: " + err.Error())
+						ex.abort()
+						return
+					}
+					ns.Queries, ns.Time, ns.MaxQ = old.Queries, old.Time, old.MaxQ
+					w.solver = ns
+				}
 			}
 		}()
 	}
@@ -239,7 +252,12 @@ func (w *worker) runPath(fn *ssa.Function, decs []int) {
 	p.sched_ = sched
 	w.solver.Push()
 	defer func() {
-		w.solver.Pop()
+		if !w.solver.Hung() {
+			func() {
+				defer func() { recover() }()
+				w.solver.Pop()
+			}()
+		}
 		w.stats.Instrs += p.instrs
 		res.mu.Lock()
 		for f := range it.funcsSeen {
